@@ -13,22 +13,28 @@
 (*   Release                                                               *)
 (*   Send       the request reaches the opener with its id                 *)
 (* A request whose caller supplied an id goes Check -> Send and never      *)
-(* touches the counter.                                                    *)
+(* touches the counter.  A request whose body cannot be serialised takes   *)
+(* its number and then fails (Fail instead of Send): the number stays      *)
+(* handed out - it is lost, never handed out again.                        *)
 (***************************************************************************)
 EXTENDS Naturals, Sequences, FiniteSets, TLC
 
 CONSTANTS Threads,    \* set of thread ids (naturals)
           Reqs,       \* requests per thread
-          OwnChoices  \* set of possible values of own (each a set of <<thread, request number>> pairs)
+          OwnChoices, \* set of possible values of own (each a set of <<thread, request number>> pairs)
+          FailChoices \* set of possible values of failing (requests that fail after taking a number)
 
 VARIABLES counter, holder, pc, nxt, tmp, done, sent,
-          own         \* the requests that carry a caller supplied id (fixed during a behaviour)
-vars == <<counter, holder, pc, nxt, tmp, done, sent, own>>
+          own,        \* the requests that carry a caller supplied id (fixed during a behaviour)
+          failing,    \* the requests that fail between taking a number and reaching the opener (fixed)
+          lost        \* numbers handed out to requests that failed
+vars == <<counter, holder, pc, nxt, tmp, done, sent, own, failing, lost>>
 OwnId == own
 Free == 0
 
 (* standard choices used by the model checking configurations *)
 OwnChoicesStd == { {}, { <<1, 1>> }, { <<1, 2>>, <<2, 1>> } }
+FailChoicesStd == { {}, { <<1, 1>> }, { <<2, 1>> } }
 
 Init == /\ counter = 0 /\ holder = Free
         /\ pc = [t \in Threads |-> "check"]
@@ -36,33 +42,40 @@ Init == /\ counter = 0 /\ holder = Free
         /\ done = [t \in Threads |-> 0]
         /\ sent = <<>>                      \* sequence of [t, own, n]
         /\ own \in OwnChoices
+        /\ failing \in { f \in FailChoices : f \cap own = {} } /\ lost = {}
 
 Cur(t) == done[t] + 1
 Check(t) == /\ pc[t] = "check" /\ done[t] < Reqs
             /\ pc' = [pc EXCEPT ![t] = IF <<t, Cur(t)>> \in OwnId THEN "send" ELSE "acquire"]
-            /\ UNCHANGED <<counter, holder, nxt, tmp, done, sent, own>>
+            /\ UNCHANGED <<counter, holder, nxt, tmp, done, sent, own, failing, lost>>
 Acquire(t) == /\ pc[t] = "acquire" /\ holder = Free
               /\ holder' = t /\ pc' = [pc EXCEPT ![t] = "readid"]
-              /\ UNCHANGED <<counter, nxt, tmp, done, sent, own>>
+              /\ UNCHANGED <<counter, nxt, tmp, done, sent, own, failing, lost>>
 ReadForId(t) == /\ pc[t] = "readid"
                 /\ nxt' = [nxt EXCEPT ![t] = counter] /\ pc' = [pc EXCEPT ![t] = "readinc"]
-                /\ UNCHANGED <<counter, holder, tmp, done, sent, own>>
+                /\ UNCHANGED <<counter, holder, tmp, done, sent, own, failing, lost>>
 ReadForInc(t) == /\ pc[t] = "readinc"
                  /\ tmp' = [tmp EXCEPT ![t] = counter] /\ pc' = [pc EXCEPT ![t] = "write"]
-                 /\ UNCHANGED <<counter, holder, nxt, done, sent, own>>
+                 /\ UNCHANGED <<counter, holder, nxt, done, sent, own, failing, lost>>
 WriteInc(t) == /\ pc[t] = "write"
                /\ counter' = tmp[t] + 1 /\ pc' = [pc EXCEPT ![t] = "release"]
-               /\ UNCHANGED <<holder, nxt, tmp, done, sent, own>>
+               /\ UNCHANGED <<holder, nxt, tmp, done, sent, own, failing, lost>>
 Release(t) == /\ pc[t] = "release" /\ holder = t
               /\ holder' = Free /\ pc' = [pc EXCEPT ![t] = "send"]
-              /\ UNCHANGED <<counter, nxt, tmp, done, sent, own>>
-Send(t) == /\ pc[t] = "send"
+              /\ UNCHANGED <<counter, nxt, tmp, done, sent, own, failing, lost>>
+Send(t) == /\ pc[t] = "send" /\ <<t, Cur(t)>> \notin failing
            /\ sent' = Append(sent, [t |-> t, own |-> <<t, Cur(t)>> \in OwnId, n |-> nxt[t]])
            /\ done' = [done EXCEPT ![t] = @ + 1]
            /\ pc' = [pc EXCEPT ![t] = "check"]
-           /\ UNCHANGED <<counter, holder, nxt, tmp, own>>
+           /\ UNCHANGED <<counter, holder, nxt, tmp, own, failing, lost>>
 
-Step(t) == Check(t) \/ Acquire(t) \/ ReadForId(t) \/ ReadForInc(t) \/ WriteInc(t) \/ Release(t) \/ Send(t)
+Fail(t) == /\ pc[t] = "send" /\ <<t, Cur(t)>> \in failing
+           /\ lost' = lost \cup {nxt[t]}
+           /\ done' = [done EXCEPT ![t] = @ + 1]
+           /\ pc' = [pc EXCEPT ![t] = "check"]
+           /\ UNCHANGED <<counter, holder, nxt, tmp, sent, own, failing>>
+
+Step(t) == Fail(t) \/ Check(t) \/ Acquire(t) \/ ReadForId(t) \/ ReadForInc(t) \/ WriteInc(t) \/ Release(t) \/ Send(t)
 Next == \E t \in Threads : Step(t)
 Spec == Init /\ [][Next]_vars /\ \A t \in Threads : WF_vars(Step(t))
 
@@ -71,9 +84,10 @@ Generated == SelectSeq(sent, LAMBDA s : ~s.own)
 Numbers == { Generated[i].n : i \in 1 .. Len(Generated) }
 Unique == \A i, j \in 1 .. Len(Generated) : i # j => Generated[i].n # Generated[j].n
 Quiescent == \A t \in Threads : done[t] = Reqs
-GapFree == Quiescent => Numbers = 0 .. (Len(Generated) - 1)
+GapFree == Quiescent => /\ Numbers \cup lost = 0 .. (Len(Generated) + Cardinality(lost) - 1)
+                        /\ Numbers \cap lost = {}
 (* numbers are handed out without gaps at any time: the ones already sent plus the ones in flight *)
-CounterCounts == counter >= Len(Generated)
+CounterCounts == counter >= Len(Generated) + Cardinality(lost)
 MutualExclusion == \A t \in Threads : pc[t] \in {"readid", "readinc", "write", "release"} => holder = t
 AllDone == <>Quiescent
 =============================================================================
